@@ -520,7 +520,11 @@ def run_mitm(spec):
                          "msg": "%d records reached the manager from the connection, frame %d was corrupted (%s)" % (len(surfaced_after), at, spec["field"]),
                          "witness": wit})
         if rx_end.connected:
-            viol.append({"key": "C12/mitm/not-dropped/" + spec["field"], "msg": "connection still up after a corrupted frame was fed", "witness": wit})
+            # (for the re-framing attacks this is the same mechanism as above: when the remainder happens to parse
+            # as a record too, nothing makes the receiver drop the connection)
+            viol.append({"key": ("C12/mitm/reframed-multi-message-frame-surfaced" if spec["field"].startswith("split")
+                                 else "C12/mitm/not-dropped/" + spec["field"]),
+                         "msg": "connection still up after a corrupted frame was fed (%s)" % spec["field"], "witness": wit})
     # order and identity at the L2 -> manager boundary: what a Manager receives from a connection is a prefix
     # of what the peer handed to the other end of that connection (the re-framing finding is keyed above)
     from wormhole._dilation.connection import KCM
